@@ -4,6 +4,7 @@ import lrcommon
 import notecommon
 from props import c04_resolve
 from props import c01_genmodel
+from props import c04_verdict
 
 LEVEL = "proof"
 
@@ -13,6 +14,7 @@ def run(r):
     r.run_witnesses(["C04", "C01"])
     c04_resolve.run_resolve(r)
     c01_genmodel.run_genmodel(r, props=("C01", "C04"))
+    c04_verdict.run_verdict(r)
     n = 250 if r.tier == "quick" else 6000
     notecommon.run_notes(r, "lalr", "C04", n, label="verdict = (independent LALR(1) reference keeps a conflict after the documented precedence rule); "
                          "accepted automata equal the reference automaton item for item")
